@@ -204,6 +204,26 @@ def concurrent_cas(t):
 
 
 K13_SIG = "sqlite:multi-statement-read-not-a-snapshot"
+K14_SIG = "sqlite:write-accepted-while-another-connection-finishes-the-trial"
+TRIAL_WRITES = ("set_param", "set_iv", "set_trial_ua", "set_trial_sa")
+
+
+def write_races_finish(t):
+    """a trial write that answered ok overlaps, in time, another worker's set_state that finished the SAME trial and
+    answered True (shape of recorded finding K14)"""
+    open_calls = {}
+    for e in t["ev"]:
+        if e["e"] == "start" and e["w"] > 0:
+            op, ret = e["op"], e["ret"]
+            for w2, (op2, ret2) in open_calls.items():
+                for a, ra, b, rb in ((op, ret, op2, ret2), (op2, ret2, op, ret)):
+                    if (a["a"] in TRIAL_WRITES and ra.get("k") == "ok" and b["a"] == "set_state" and b.get("t") == a.get("t")
+                            and b.get("state") in ("COMPLETE", "PRUNED", "FAIL") and rb == {"k": "ok", "v": True}):
+                        return True
+            open_calls[e["w"]] = (op, ret)
+        elif e["e"] == "end":
+            open_calls.pop(e["w"], None)
+    return False
 
 
 def without_overlapping_getters(t):
@@ -259,6 +279,10 @@ def judge(ctx, traces, label):
             continue
         if id(t) in torn:
             ctx.known_finding(ctx.match_known(K13_SIG), f"e.g. {calls} choices={t['choices']}")
+            continue
+        f = ctx.match_known(K14_SIG) if write_races_finish(t) else None
+        if f is not None:
+            ctx.known_finding(f, f"e.g. {calls} choices={t['choices']}")
             continue
         ctx.violation(f"SQLite connections interleaved per statement: no linearization explains {calls} "
                       f"(deadlock={t['deadlock']})", {"replay": t["replay"], "choices": t["choices"], "events": t["ev"]})
